@@ -112,6 +112,29 @@ def TState.ledger (s : TState) : Ledger :=
 /-- the reset ran to its end: nothing of the old connection is referenced and the manager is IDLE (so the pump reconnects) -/
 def TState.completed (s : TState) : Bool := !s.aborted && s.spaCleared && s.facadeCleared && s.idle && s.protoDropped
 
+/-! ### discovery's `finally` block under a context exit
+
+`__aexit__` cancels the sequence pump (a discovery in flight starts unwinding through its `finally`), then awaits the
+client's SPA_MAN_EXIT handler, then `gather()` cancels every task AGAIN.  When the client's handler really suspends, that
+second cancellation is delivered at the first await INSIDE the `finally` block; what the block has not done by then is never
+done.  (When the handler returns at once both cancellations collapse into one.) -/
+
+structure FState where
+  aborted : Bool := false
+  closed : Bool := false
+  locCancelled : Bool := false
+deriving Repr, DecidableEq
+
+def fleaf (secondCancel : Bool) (s : FState) (st : TStep) : FState :=
+  if s.aborted then s else
+  match st with
+  | .awaitHandler | .awaitOther => if secondCancel then { s with aborted := true } else s
+  | .closeTransport => { s with closed := true }
+  | .cancelLoc => { s with locCancelled := true }
+  | _ => s
+
+def runDiscoverFinally (steps : List TStep) (secondCancel : Bool) : FState := steps.foldl (fleaf secondCancel) {}
+
 inductive Kind | reset | exit
 deriving Repr, DecidableEq
 
